@@ -359,3 +359,50 @@ func GenWild(r *core.PRNG, asPackage bool) string {
 	}
 	return strings.Join(top, "\n") + "\n"
 }
+
+// GenOdd returns small programs that are syntactically fine but semantically
+// wrong in ways a live-coding session produces all the time: control flow
+// outside its construct, result counts that do not match, calls of things that
+// are not functions, nil receivers, shadowed builtins, unsupported keywords.
+func GenOdd(r *core.PRNG) string {
+	ret := core.Pick(r, []string{"", " int", " (int, int)", " any", " string"})
+	ctl := core.Pick(r, []string{"break", "continue", "break", "if true { break }", "for { break }; break", "switch { case true: continue }", "return"})
+	loop := core.Pick(r, []string{"for", "for i := 0; i < 2; i++", "for _, v := range []int{1, 2}", "for k := range map[string]int{\"a\": 1}"})
+	n := core.Pick(r, wildInts)
+	switch r.Intn(16) {
+	case 0:
+		return fmt.Sprintf("var hook func()%s; %s { hook = func()%s { %s }; break }; %s", ret, loop, ret, ctl, core.Pick(r, []string{"hook()", "x := hook(); x", "a, b := hook(); a; b", ""}))
+	case 1:
+		return fmt.Sprintf("func f()%s { }; %s", ret, core.Pick(r, []string{"f()", "x := f(); x", "a, b := f(); a", "a, b, c := f()"}))
+	case 2:
+		return fmt.Sprintf("func f()%s { return %s }; x := f(); x", ret, core.Pick(r, []string{"", "1", "1, 2", "1, 2, 3", "f()", "nil"}))
+	case 3:
+		return core.Pick(r, []string{"break", "continue", "return 1", "func f() { break }; f()", "func f() { continue }; f()", "switch 1 { case 1: continue }", "if true { break }", "func f() int { for { return 1; break } }; f()"})
+	case 4:
+		return core.Pick(r, []string{"var f func(); f()", "5()", "\"s\"(1)", "x := 1; x.y", "x := 1; x[0]", "x := 1; x.y()", "nil()", "nil.x", "true[0]", "x := []int{}; x.y", "x := map[string]int{}; x()", "len()", "len(1, 2)", "append()", "delete(1)", "copy(1)", "panic()", "make()", "make(int)", "make([]int)"})
+	case 5:
+		return fmt.Sprintf("func r(n int) int { return r(n + 1) %s 1 }; r(0)", core.Pick(r, []string{"+", "*", "-"}))
+	case 6:
+		return "func f(a int) int { return a }; f(" + strings.TrimSuffix(strings.Repeat(n+", ", 1+r.Intn(300)), ", ") + ")"
+	case 7:
+		return core.Pick(r, []string{"func f(a int) {}; xs := []int{1}; f(xs...)", "xs := []int{}; xs = append(xs...)", "func f(a ...int) int { return len(a) }; f(1, []int{2}...)", "func f(a ...int) {}; f(nil...)", "func f(a int, b ...any) {}; f()", "println([]any{}...)"})
+	case 8:
+		return core.Pick(r, []string{"type T T; var t T; t", "type A []A; a := A{}; a = append(a, a); println(a)", "type T struct { T *T }; t := &T{}; t.T = t; println(t)", "type T struct{}; type T int; var x T = 1; x", "type I interface { m() }; var i I; i.m()", "type T struct { A int }; t := &T{B: 1}; t", "type T struct { A int }; t := T{1}; t"})
+	case 9:
+		return core.Pick(r, []string{"type T struct { A int }; func (t *T) m() int { return t.A }; var t *T; t.m()", "type T struct{}; t := &T{}; t.missing()", "type T struct{}; func (t *T) m() {}; x := t.m; x()", "type T struct{}; func (x *Undefined) m() {}", "func (t *T) m() {}; type T struct{}; t := &T{}; t.m()"})
+	case 10:
+		return core.Pick(r, []string{"a, b := 1", "a := 1, 2; a", "func f() int { return 1 }; a, b := f(); b", "a, b, c := 1, 2", "var a, b int = 1; b", "a, _ := 1, 2, 3", "_ := 1", "_ = 1", "_", "a, a := 1, 2; a", "var (a = 1; b); b", "const (a = iota; b; c); c", "const a; a", "const (a, b = iota, iota * 2; c, d); d"})
+	case 11:
+		return core.Pick(r, []string{"go f()", "defer f()", "ch := make(chan int); ch <- 1", "select {}", "goto L", "L: for { break L }", "x := <-ch", "func f() (n int) { n = 1; return }; f()", "var a [3]int; a[0]", "x := struct{A int}{1}; x", "type E int; func (e E) m() {}", "for i := range 3 { i }", "x := 1; p := &x; *p", "switch x := 1; x.(type) { }", "import \"os\"; os.Exit(1)"})
+	case 12:
+		return core.Pick(r, []string{"len := 3; xs := []int{1}; len(xs)", "nil := 1; nil", "true = false; true", "int := 5; int(2.5)", "string := 1; string(65)", "append := 1; append", "fmt := 1; import \"fmt\"; fmt.Println(1)", "import \"fmt\"; fmt := 2; fmt", "println := 1; println(2)", "func len() {}; len()", "type int string; var x int = 1; x", "func main() {}; main := 1; main()"})
+	case 13:
+		return core.Pick(r, []string{";;", "$", "$0", "$ 1", "$" + n, "$.x", "$ = 1", "$[0]", "x := $; x", "~", "#", "?", "@", "\\", "a ? b : c", "a -> b", "...", "x...", "(...)"})
+	case 14:
+		return fmt.Sprintf("xs := []int{1, 2, 3}; %s", core.Pick(r, []string{"xs[" + n + "]", "xs[" + n + ":]", "xs[:" + n + "]", "xs[" + n + ":" + n + "]", "xs[1:0]", "xs[-1:]", "s := \"abc\"; s[" + n + "]", "s := \"abc\"; s[" + n + ":]", "m := map[int]int{}; m[" + n + "]++; m", "xs[0] /= 0", "xs[0] %= 0", "x := 1 << " + n + "; x", "x := 1 >> " + n + "; x", "x := 1.5 % 2; x", "x := \"a\" * 2; x", "x := \"a\" - \"b\"; x", "x := !5; x", "x := -\"s\"; x", "x := ^1.5; x"}))
+	}
+	return fmt.Sprintf("import \"strings\"; import \"fmt\"; import \"strconv\"; import \"math\"; %s", core.Pick(r, []string{
+		"strings.Repeat(\"ab\", -1)", "strings.Repeat(\"ab\", " + n + ")", "strings.Split(1, 2)", "strings.Join(1, 2)", "strings.Join([]int{1}, \",\")", "fmt.Sprintf(\"%d %s %v %!\", 1)", "fmt.Sprintf(5)", "fmt.Sprintf()", "strconv.Itoa(\"x\")", "strconv.ParseInt(\"1\", 99, 64)", "strconv.ParseFloat(\"x\")", "strconv.FormatFloat(1.5, 'q', 1, 64)", "strconv.FormatInt(5, 1)", "math.Sqrt(\"x\")", "math.Sqrt()", "strings.Replace(\"a\", \"\", \"b\", " + n + ")",
+		"import \"golang.org/x/exp/slices\"; slices.SortFunc(1, 2)", "import \"golang.org/x/exp/slices\"; slices.SortFunc([]int{2, 1}, func(a, b int) int { return 1 })", "import \"golang.org/x/exp/slices\"; slices.Delete([]int{1}, 3, 1)", "import \"golang.org/x/exp/slices\"; slices.Sort([]any{1, \"a\", nil})", "import \"golang.org/x/exp/maps\"; maps.Keys(1)", "import \"golang.org/x/exp/maps\"; maps.Clone(nil)", "import \"errors\"; e := errors.New(1); e.Error()", "import \"errors\"; e := errors.New(\"x\"); e.Missing()", "import \"time\"; time.Sleep(\"x\")", "import \"time\"; t := time.Now(); t.Missing()", "import \"os\"; os.ReadFile(1)", "import \"os\"; os.WriteFile(\"x\", 1, 2)", "import \"math/rand\"; rand.Intn(0)", "import \"math/rand\"; rand.Intn(-5)", "__type()", "__yield()", "import \"builtin\"; builtin.__yield(1)",
+	}))
+}
